@@ -151,7 +151,11 @@ def same(a, b):
     try:
         return bool(a == b)
     except Exception:
-        return a is b
+        # values of foreign types whose == is not a truth value: same printed form
+        try:
+            return repr(a) == repr(b)
+        except Exception:
+            return a is b
 
 
 def outcome(f):
@@ -313,6 +317,10 @@ class Observer:
             return ["none"]
         if isinstance(v, tuple):
             return ["t", [self.lit(x) for x in v]]
+        if type(v) is float:
+            return ["f", v.hex()]          # kept exact: 0.0 / -0.0 / 1.0 are different literals
+        if type(v) is complex:
+            return ["c", v.real.hex(), v.imag.hex()]
         return ["opaque", type(v).__name__]
 
     def term(self, x):
